@@ -24,6 +24,7 @@ pub fn dispatch(prop: &str, ctx: Ctx) -> ! {
         "C05" => render_prop(ctx, &c05()),
         "C06" => render_prop(ctx, &c06()),
         "C02" => render_prop(ctx, &c02()),
+        "C11" => render_prop(ctx, &c11()),
         "C13" => crate::c13::run(ctx),
         "C07" => crate::probes::run(ctx, "C07"),
         "C08" => crate::probes::run(ctx, "C08"),
@@ -50,6 +51,8 @@ pub struct RenderProp {
     pub shape: Option<fn(&mut Project, &mut Tape)>,
     /// observe every accessor flavour (C02) instead of the three td back-ends
     pub flavours: bool,
+    /// build the packages with `dynamic_load` and also observe the run-time string tables (C11)
+    pub dynamic_load: bool,
 }
 
 fn fail(sig: &str, detail: J) -> Failure {
@@ -205,13 +208,24 @@ fn emit_pkg(ws: &Path, pkg: &Pkg, rp: &RenderProp, only_keys: Option<&BTreeSet<u
         }
         None => &pkg.plan,
     };
-    let main = if rp.flavours { emit_c02::main_rs(plan, pkg.project.locales.len()) } else { emit::main_rs(plan, pkg.project.locales.len(), &rp.opts) };
+    let mut main = if rp.flavours { emit_c02::main_rs(plan, pkg.project.locales.len()) } else { emit::main_rs(plan, pkg.project.locales.len(), &rp.opts) };
+    if rp.dynamic_load {
+        main = emit::with_tables(&main, &pkg.project);
+    }
     let style = Style {
         format: Format::Json,
         seed: pkg.style_seed,
         escapes: 1,
     };
-    emit::write_package(&ws.join(&pkg.name), &pkg.name, &pkg.project, &main, &style, emit::FEATURES_STD, if rp.flavours { emit_c02::EXTRA_DEPS } else { "" })
+    let features = if rp.dynamic_load { format!("{}, \"dynamic_load\"", emit::FEATURES_STD) } else { emit::FEATURES_STD.to_string() };
+    let deps = if rp.flavours {
+        emit_c02::EXTRA_DEPS
+    } else if rp.dynamic_load {
+        "serde_json = \"1\"\nfutures = \"0.3\"\n"
+    } else {
+        ""
+    };
+    emit::write_package(&ws.join(&pkg.name), &pkg.name, &pkg.project, &main, &style, &features, deps)
 }
 
 /// compare one package's output with the model; returns per-key case infos or the first failure
@@ -227,6 +241,43 @@ fn compare_pkg(pkg: &Pkg, out: &run::RunOutput, rp: &RenderProp, only_keys: Opti
     let mut infos = vec![];
     if rp.flavours {
         return compare_flavours(pkg, out, rp, only_keys);
+    }
+    if rp.dynamic_load && only_keys.is_none() {
+        // the tables the server hands out must be, as sets, the literal texts of each locale's own keys
+        let sem = Sem::new(p);
+        for ns in p.ns_list() {
+            let nsr = ns.as_deref();
+            let Some(def) = p.file(nsr, p.default_locale()) else { continue };
+            let mut paths = vec![];
+            vcommon::gen::leaf_paths(def, &mut vec![], &mut paths);
+            for (li, loc) in p.locales.iter().enumerate() {
+                let mut expected: BTreeSet<String> = BTreeSet::new();
+                for path in &paths {
+                    if sem.is_defaulted(nsr, loc, path) {
+                        continue;
+                    }
+                    if let Ok(r) = sem.resolve_at(nsr, loc, path) {
+                        let mut v = vec![];
+                        vcommon::sem::literal_texts(&r, &mut v);
+                        expected.extend(v);
+                    }
+                }
+                let id = format!("T|{}|{}", li, ns.as_deref().unwrap_or("-"));
+                let got: Option<Vec<String>> = out.obs.get(&id).and_then(|t| serde_json::from_str(t).ok());
+                let Some(got) = got else {
+                    return Err(fail("runtime-table-missing", json!({"package": pkg.name, "locale": loc, "namespace": ns, "raw": out.obs.get(&id), "project": pj()})));
+                };
+                let got_set: BTreeSet<String> = got.iter().cloned().collect();
+                if got_set.len() != got.len() || got_set != expected {
+                    let missing: Vec<_> = expected.difference(&got_set).cloned().collect();
+                    let extra: Vec<_> = got_set.difference(&expected).cloned().collect();
+                    return Err(fail(
+                        "runtime-table-content",
+                        json!({"package": pkg.name, "locale": loc, "namespace": ns, "table": got, "missing_from_table": missing, "unexpected_in_table": extra, "project": pj()}),
+                    ));
+                }
+            }
+        }
     }
     for k in &pkg.plan.keys {
         if k.has_formatter {
@@ -650,6 +701,7 @@ pub fn c01() -> RenderProp {
         min_nontrivial: 10,
         shape: None,
         flavours: false,
+        dynamic_load: false,
     }
 }
 
@@ -690,6 +742,7 @@ pub fn c03() -> RenderProp {
         min_nontrivial: 10,
         shape: None,
         flavours: false,
+        dynamic_load: false,
     }
 }
 
@@ -741,6 +794,7 @@ pub fn c04() -> RenderProp {
         min_nontrivial: 10,
         shape: None,
         flavours: false,
+        dynamic_load: false,
     }
 }
 
@@ -784,6 +838,7 @@ pub fn c05() -> RenderProp {
         min_nontrivial: 10,
         shape: None,
         flavours: false,
+        dynamic_load: false,
     }
 }
 
@@ -824,6 +879,7 @@ pub fn c06() -> RenderProp {
         min_nontrivial: 10,
         shape: None,
         flavours: false,
+        dynamic_load: false,
     }
 }
 
@@ -866,5 +922,50 @@ pub fn c02() -> RenderProp {
         min_nontrivial: 10,
         shape: None,
         flavours: true,
+        dynamic_load: false,
+    }
+}
+
+pub fn c11() -> RenderProp {
+    RenderProp {
+        id: "C11",
+        cfg: |t| GenCfg {
+            locales: (1, 4),
+            p_namespaces: 45,
+            keys: (5, 9),
+            sub_depth: 3,
+            w_kinds: [4, 6, 2, 1, 1, 3, 3],
+            p_null: 10,
+            p_absent: 8,
+            p_kind_varies: 10,
+            p_inherits: 30,
+            max_pieces: 6,
+            max_comp_depth: 3,
+            fk_to_null: true,
+            tags: t.chance(1, 3),
+            ..GenCfg::default()
+        },
+        opts: PlanOpts {
+            assignments: 1,
+            max_counts: 4,
+            display_backend: false,
+            async_strings: true,
+            ..PlanOpts::default()
+        },
+        packages: (24, 320),
+        tape_len: 2500,
+        nontrivial: |k| k.defaulted_any || k.path.len() >= 2 || k.ns.is_some() || k.fk_depth >= 1,
+        classes: no_classes,
+        rule: "generated packages built with the features dynamic_load + ssr (literal text is read at run time from the per-locale \
+               tables through index_translations<COUNT, INDEX>): every (locale, key) is rendered through td_string! and td!(..).to_html() \
+               and compared with the model (a wrong index or a wrong table length shows as wrong text or does not compile), and \
+               I18nKeys::__i18n_request_translations__(locale, unit) - what the server hands to the client - must be, as a set without \
+               duplicates, the literal texts of that locale's own keys (per namespace). one case = one key; non-trivial = key that is \
+               defaulted somewhere, nested, namespaced or a reference; distinct = hash of the resolved values",
+        assumptions: &["the client side (fetching and installing the tables) is wasm-only and not observed"],
+        min_nontrivial: 10,
+        shape: None,
+        flavours: false,
+        dynamic_load: true,
     }
 }
